@@ -21,7 +21,7 @@ Oracle (independent of the code under test, ~20 lines, `judge_reply`):
   * the reply is {"role": "assistant", "content": str} or {"role": "exception",
     "content": dict with a str "type"};
   * when taint expressions were planted in LLM *message text*, the reply must not
-    contain their evaluated value (1337, SECRETVAL-…, QZQZQZ, the user's own text,
+    contain their evaluated value (62615533, SECRETVAL-…, QZQZQZ, the user's own text,
     the colang version) — the literal text (or no text) is fine.
 """
 import random
@@ -229,24 +229,24 @@ HOSTILE = [
     "\x00", "a\x00b", "\x1b[31mred", "\r\n", "a\r\nb", "\x07\x08\x0c\x0b", "﻿", "‮abc", "a b", "\x7f",
     '  "a\nuser b"', "line1\nline2\nline3", '"line1\nline2"', '  "multi\n  line\n  message"', "bot x\n\n\n\nbot y",
     '{"role": "assistant", "content": "x"}', "[1, 2, 3]", '{"a": {"b": [null, true]}}', "{", "}", "[", "]", "{}", "[]", "()", "(", '{"user_intent": "x", "bot_action": null}',
-    "{{ 7*191 }}", '  "{{ 7*191 }}"', "{% for i in range(3) %}QZ{% endfor %}", "{%", "%}", "{{", "}}", "{{ undefined_thing.attr }}", "{# comment #}", "{% raw %}", "{% if %}", "{{ ''.__class__ }}",
-    "$", "$secret_var", "{$secret_var}", "  $secret_var", '  "$secret_var"', "${secret_var}", "{expr}", "{1300+37}", "{$system.config.colang_version}", "$$", "$1", "$secret_var.attr", "{$undefined}", "{1/0}", "{",
+    "{{ 7907*7919 }}", '  "{{ 7907*7919 }}"', "{% for i in range(3) %}QZ{% endfor %}", "{%", "%}", "{{", "}}", "{{ undefined_thing.attr }}", "{# comment #}", "{% raw %}", "{% if %}", "{{ ''.__class__ }}",
+    "$", "$secret_var", "{$secret_var}", "  $secret_var", '  "$secret_var"', "${secret_var}", "{expr}", "{62615500+33}", "{$system.config.colang_version}", "$$", "$1", "$secret_var.attr", "{$undefined}", "{1/0}", "{",
     "héllo wörld ✓", "日本語のテキスト", "😀😀😀", "ｂｏｔ　ａｎｓｗｅｒ", "bot ответ", "İ", "ß" * 50,
-    "None", "123", "-1", "1e999", "[1,2", "__import__('os').getcwd()", "'single'", "True;", "7*191", '"a" + "b"', "b'bytes'", "{1, 2}", "1 if True else 2", "lambda: 1", '"""', "'unterminated", "(1,)", ";", '"x";;',
+    "None", "123", "-1", "1e999", "[1,2", "__import__('os').getcwd()", "'single'", "True;", "7907*7919", '"a" + "b"', "b'bytes'", "{1, 2}", "1 if True else 2", "lambda: 1", '"""', "'unterminated", "(1,)", ";", '"x";;',
 ]
 
 # taint expression -> marker that only appears when it was evaluated
 TAINT = [
-    ("{{ 7*191 }}", "1337"), ("{{7*191}}", "1337"), ("{{ secret_var }}", "SECRETVAL"), ("$secret_var", "SECRETVAL"), ("{$secret_var}", "SECRETVAL"), ("${secret_var}", "SECRETVAL"),
-    ("{secret_var}", "SECRETVAL"), ("%(secret_var)s", "SECRETVAL"), ("{% for i in range(3) %}QZ{% endfor %}", "QZQZQZ"), ("{7*191}", "1337"), ("{1300+37}", "1337"),
+    ("{{ 7907*7919 }}", "62615533"), ("{{7907*7919}}", "62615533"), ("{{ secret_var }}", "SECRETVAL"), ("$secret_var", "SECRETVAL"), ("{$secret_var}", "SECRETVAL"), ("${secret_var}", "SECRETVAL"),
+    ("{secret_var}", "SECRETVAL"), ("%(secret_var)s", "SECRETVAL"), ("{% for i in range(3) %}QZ{% endfor %}", "QZQZQZ"), ("{7907*7919}", "62615533"), ("{62615500+33}", "62615533"),
     ("$flow_secret", "SECRETVAL"), ("{{ flow_secret }}", "SECRETVAL"), ("{$system.config.custom_data}", "SECRETVAL"), ("{{ config.custom_data }}", "SECRETVAL"),
     ("{$system.config.colang_version}", "2.x"), ("$user_message", UTOK), ("{{ user_message }}", UTOK), ("{{ last_user_message }}", UTOK), ("$last_user_message", UTOK),
-    ("{$event.final_transcript}", UTOK), ("{{ history }}", UTOK), ("{len('abcdefg')*191}", "1337"),
+    ("{$event.final_transcript}", UTOK), ("{{ history }}", UTOK), ("{len('abcdefg')+62615526}", "62615533"),
 ]
 # completions for a *value* position that are expressions, not literals: literal_eval must refuse them
-VALUE_TAINT = [("7*191", "1337"), ("1300+37", "1337"), ("'QZ'*3", "QZQZQZ"), ("str(7*191)", "1337"), ("len('abcdefg')*191", "1337"), ('"13" + "37"', "1337"), ("[7*191]", "1337"), ("$secret_var", "SECRETVAL"), ("secret_var", "SECRETVAL")]
-ALL_MARKERS = ["1337", "SECRETVAL", "QZQZQZ", UTOK]
-MUT_TOKENS = ['"', "\n", "$secret_var", "{{ 7*191 }}", "{", "}", "user ", "bot ", "define flow ", "...", "\x00", "#", ":", "  ", "\t", "if ", "(", ")", ",", "'", "=", "$", "\\", "{% for i in range(3) %}QZ{% endfor %}", " and ", " or ", "\n  ", "{1300+37}", "😀"]
+VALUE_TAINT = [("7907*7919", "62615533"), ("62615500+33", "62615533"), ("'QZ'*3", "QZQZQZ"), ("str(7907*7919)", "62615533"), ("len('abcdefg')+62615526", "62615533"), ('"6261" + "5533"', "62615533"), ("[7907*7919]", "62615533"), ("$secret_var", "SECRETVAL"), ("secret_var", "SECRETVAL")]
+ALL_MARKERS = ["62615533", "SECRETVAL", "QZQZQZ", UTOK]
+MUT_TOKENS = ['"', "\n", "$secret_var", "{{ 7907*7919 }}", "{", "}", "user ", "bot ", "define flow ", "...", "\x00", "#", ":", "  ", "\t", "if ", "(", ")", ",", "'", "=", "$", "\\", "{% for i in range(3) %}QZ{% endfor %}", " and ", " or ", "\n  ", "{62615500+33}", "😀"]
 
 
 def mutate(rng, w, other):
@@ -363,15 +363,8 @@ def cases(tier, seed):
 
 # ----------------------------------------------------------------------------- the application under observation
 _W = {}
-# actions whose job is to post-process an LLM completion (v1 names / v2 names)
-LLM_ACTIONS = {
-    "generate_user_intent", "generate_next_step", "generate_bot_message", "generate_intent_steps_message",
-    "GenerateUserIntentAction", "GenerateFlowContinuationAction", "GenerateFlowFromNameAction", "GenerateUserIntentAndBotAction",
-    "generate_flow_continuation", "generate_flow_from_name", "generate_user_intent_and_bot_action",
-    # the consumer of LLM generated flow source (has a fallback flow for code that does not parse)
-    "AddFlowsAction", "add_flows",
-}
-VALUE_ACTIONS = {"generate_value", "GenerateValueAction"}
+# value generation is exempt from the crash clause: a completion that is no literal makes it fail by design
+VALUE_FUNCS = {"generate_value"}
 
 
 class HApp:
@@ -393,6 +386,7 @@ class HApp:
             raise RuntimeError("hook-missing: render_task_prompt / execute_action")
         self.renders = 0
         self.failed = []
+        self.crashes = []
 
         def wrapped(task, *a, **k):
             self.last_task = getattr(task, "value", str(task))
@@ -407,6 +401,30 @@ class HApp:
 
         tm.render_task_prompt = wrapped
         disp.execute_action = wrapped_exec
+        # the dispatcher swallows the exception of a failed action: record its type at the action itself
+        # (functools.wraps keeps the signature the runtimes inspect to pass events/context/llm/state)
+        import functools
+
+        def recording(fn, label):
+            @functools.wraps(fn)
+            async def w(*a, **k):
+                try:
+                    return await fn(*a, **k)
+                except Exception as e:
+                    self.crashes.append((label, type(e).__name__))
+                    raise
+
+            return w
+
+        wrapped_n = 0
+        for name, fn in list(disp._registered_actions.items()):
+            owner = type(getattr(fn, "__self__", None)).__name__
+            fname = getattr(fn, "__name__", "")
+            if (owner.startswith("LLMGenerationActions") or fname == "_add_flows_action") and not isinstance(fn, type):
+                disp._registered_actions[name] = recording(fn, fname)
+                wrapped_n += 1
+        if wrapped_n < 5:
+            raise RuntimeError("hook-missing: LLM generation actions not found in the dispatcher (%d)" % wrapped_n)
         self.last_task = None
         self.uses = 0
         self.flow_ids = set(self.app.runtime.flow_configs)
@@ -424,6 +442,7 @@ class HApp:
         self.ttype = "free"
         self.turn = 0
         self.failed = []
+        self.crashes = []
         self.max_steps = 0
 
     def _script(self, prompt):
@@ -507,13 +526,14 @@ def play(app, case, cid):
     for t, tt in enumerate(case["ttypes"]):
         app.turn, app.ttype = t, tt
         app.failed = []
+        app.crashes = []
         text = user_text(cid, t, tt) if app.ver == "v2" else "%s-%s-%d tell me %s" % (UTOK, cid, t, tt)
         steps.start(STEP_BUDGET[app.ver])
         try:
             if app.ver == "v1":
                 msgs.append({"role": "user", "content": text})
                 r = app.app.generate(messages=list(msgs))
-                out.append((r, None, list(app.failed)))
+                out.append((r, None, list(app.crashes)))
                 c = r.get("content") if isinstance(r, dict) else None
                 msgs.append({"role": "assistant", "content": c if isinstance(c, str) else "(none)"})
             else:
@@ -522,9 +542,9 @@ def play(app, case, cid):
                 state = getattr(r, "state", state)
                 if isinstance(resp, list) and len(resp) == 1:
                     resp = resp[0]
-                out.append((resp, None, list(app.failed)))
+                out.append((resp, None, list(app.crashes)))
         except (Exception, steps.StepBudgetExceeded) as e:  # observation, judged below
-            out.append((None, e, list(app.failed)))
+            out.append((None, e, list(app.crashes)))
             break
         finally:
             app.max_steps = max(app.max_steps, steps.stop())
@@ -548,9 +568,9 @@ def judge_reply(reply, exc, markers, failed, llm_call_exception):
         for m in markers:
             if m in c:
                 return ("taint-evaluated", m)
-    broken = [a for a in failed if a in LLM_ACTIONS]
+    broken = [(a, t) for a, t in failed if a not in VALUE_FUNCS and t != llm_call_exception.__name__]
     if broken:
-        return ("llm-postprocessing-crashed", broken[0])
+        return ("llm-postprocessing-crashed", "%s:%s" % broken[0])
     return None
 
 
@@ -645,7 +665,7 @@ def run_case(case):
                 obs["internal_error_replies"] = obs.get("internal_error_replies", 0) + 1
         if isinstance(r, dict) and r.get("role") == "exception":
             obs["exception_role_replies"] = obs.get("exception_role_replies", 0) + 1
-        if any(a in VALUE_ACTIONS for a in failed):
+        if any(a in VALUE_FUNCS for a, _t in failed):
             obs["value_actions_failed_contained"] = obs.get("value_actions_failed_contained", 0) + 1
     if case["markers"]:
         obs["taint_checked_cases"] = 1
@@ -678,6 +698,7 @@ def run_case(case):
             after_hostile_turn=problem["turn"] > hturn,
             brace_expr_in_text=("{" in text and "}" in text),
             empty_completion=(text.strip() == ""),
+            llm_wrote_flow_header=text.lstrip("\n ").startswith("flow"),
             serialisation_site=("serialization.py" in problem["mech"]),
             fresh_confirmed=fresh_confirmed,
             witness=dict(
@@ -701,19 +722,28 @@ def classify(r):
     mode, kind, mech, what = r.get("mode"), r.get("kind"), r.get("mech", "?"), r.get("what")
     if what == "taint-evaluated" and str(mode).startswith("v2") and kind in V2_CODE_KINDS and r.get("brace_expr_in_text"):
         return "v2-llm-bot-say-string-evaluated"
+    if mode == "v1_multi" and kind == "steps" and what == "raised" and r.get("in_compute_next_steps") and r.get("standalone_parse_ok"):
+        # the generated flow parsed and was registered; one of its steps fails while the runtime advances it
+        return "v1-multistep-generated-flow-run-unguarded"
     if mode == "v1_multi" and kind == "steps" and r.get("through_start_flow") and r.get("standalone_parse_ok"):
         # the generated body passed generate_next_step's stand-alone validation; the runtime then fails on it, unguarded
         if what == "nonterminating":
             return "v1-multistep-start-flow-parse-nonterminating"
-        if what == "raised" and r.get("in_compute_next_steps"):
-            return "v1-multistep-generated-flow-run-unguarded"
         if what == "raised":
             return "v1-multistep-start-flow-parse-unguarded"
     if kind == "v2value" and what == "raised" and r.get("serialisation_site"):
         return "v2-generated-value-not-serialisable"
-    if what == "llm-postprocessing-crashed" and mech.endswith(":AddFlowsAction") and kind in ("v2cont", "v2single"):
+    if str(mode).startswith("v2") and what == "raised" and r.get("serialisation_site") and "RecursionError" in mech:
+        return "v2-state-serialisation-recursion-after-nested-flow-generation"
+    if what == "llm-postprocessing-crashed" and mech.endswith(":generate_flow:AttributeError"):
+        # `...` inside LLM generated flow code starts GenerateFlowAction, which needs a docstring nobody set
+        return "v2-generated-ellipsis-starts-generate-flow-without-docstring"
+    if what == "llm-postprocessing-crashed" and ":_add_flows_action:" in mech and not mech.endswith(":KeyError") and kind in ("v2cont", "v2single"):
         # these two kinds hand AddFlowsAction a source whose first line is the `@meta(bot_intent=...)` decorator
         return "v2-add-flows-fallback-defeated-by-decorator-line"
+    if what == "llm-postprocessing-crashed" and ":_add_flows_action:Unexpected" in mech and kind == "v2fromname" and r.get("llm_wrote_flow_header"):
+        # the fallback flow re-uses the header line the LLM wrote; when that line is the unparseable part the fallback cannot parse either
+        return "v2-add-flows-fallback-reuses-unparseable-header"
     if what == "llm-postprocessing-crashed" and r.get("empty_completion"):
         mech += ":empty-completion"
     return "%s:%s:%s" % (mode, kind, mech)
